@@ -33,6 +33,10 @@ pub struct Case {
     /// the request is delivered on the very topic it names as its response topic (a shared request / response topic)
     #[serde(default)]
     pub same_topic: bool,
+    /// fixed-header flags of the request: bit 0 = RETAIN (a retained request picked up on subscribing), bit 1 = DUP
+    /// (only with QoS > 0)
+    #[serde(default)]
+    pub in_flags: u8,
 }
 
 const CAPS: [(usize, usize); 7] = [(1, 1), (2, 1), (8, 4), (127, 8), (128, 128), (300, 0), (65535, 65535)];
@@ -143,9 +147,9 @@ pub fn eval(c: &Case) -> CaseOut {
             }
         }
         let request = SPacket::Publish {
-            dup: false,
+            dup: c.in_flags & 2 != 0 && c.in_qos > 0,
             qos: c.in_qos,
-            retain: false,
+            retain: c.in_flags & 1 != 0,
             topic: match (&topic, c.same_topic) {
                 (Some(t), true) => t.as_bytes().to_vec(),
                 _ => b"req".to_vec(),
@@ -324,7 +328,7 @@ fn cases(tier: Tier) -> Vec<Case> {
                         if tier == Tier::Quick && in_qos == 1 && (t.unwrap_or(0) > 200 || cl.unwrap_or(0) > 200) {
                             continue;
                         }
-                        v.push(Case { topic_len: *t, corr_len: *cl, position, in_qos, add_user_props, owned: None, topic_kind: 0, same_topic: false });
+                        v.push(Case { topic_len: *t, corr_len: *cl, position, in_qos, add_user_props, owned: None, topic_kind: 0, same_topic: false, in_flags: 0 });
                     }
                 }
             }
@@ -338,7 +342,7 @@ fn cases(tier: Tier) -> Vec<Case> {
             for cl in [None, Some(0usize), Some(3), Some(255)] {
                 for position in 0..4u8 {
                     for owned in [None, Some(6usize)] {
-                        v.push(Case { topic_len: Some(t), corr_len: cl, position, in_qos: (t % 2) as u8, add_user_props: (t % 3) as u8, owned, topic_kind: 0, same_topic: false });
+                        v.push(Case { topic_len: Some(t), corr_len: cl, position, in_qos: (t % 2) as u8, add_user_props: (t % 3) as u8, owned, topic_kind: 0, same_topic: false, in_flags: 0 });
                     }
                 }
             }
@@ -348,7 +352,7 @@ fn cases(tier: Tier) -> Vec<Case> {
             for t in [None, Some(1usize), Some(9), Some(130)] {
                 for position in 0..4u8 {
                     for owned in [None, Some(6usize)] {
-                        v.push(Case { topic_len: t, corr_len: Some(cl), position, in_qos: (cl % 2) as u8, add_user_props: (cl % 3) as u8, owned, topic_kind: 0, same_topic: false });
+                        v.push(Case { topic_len: t, corr_len: Some(cl), position, in_qos: (cl % 2) as u8, add_user_props: (cl % 3) as u8, owned, topic_kind: 0, same_topic: false, in_flags: 0 });
                     }
                 }
             }
@@ -359,7 +363,21 @@ fn cases(tier: Tier) -> Vec<Case> {
         for cl in [None, Some(0usize), Some(4)] {
             for position in 0..4u8 {
                 for owned in [None, Some(4usize), Some(6)] {
-                    v.push(Case { topic_len: Some(t), corr_len: cl, position, in_qos: (t % 2) as u8, add_user_props: (t % 3) as u8, owned, topic_kind: 0, same_topic: true });
+                    v.push(Case { topic_len: Some(t), corr_len: cl, position, in_qos: (t % 2) as u8, add_user_props: (t % 3) as u8, owned, topic_kind: 0, same_topic: true, in_flags: 0 });
+                }
+            }
+        }
+    }
+    // requests with RETAIN and / or DUP set
+    for in_flags in 1..4u8 {
+        for t in [None, Some(1usize), Some(20)] {
+            for cl in [None, Some(0usize), Some(4)] {
+                for position in [0u8, 2] {
+                    for owned in [None, Some(0usize), Some(4), Some(6)] {
+                        for in_qos in 0..3u8 {
+                            v.push(Case { topic_len: t, corr_len: cl, position, in_qos, add_user_props: 1, owned, topic_kind: 0, same_topic: false, in_flags });
+                        }
+                    }
                 }
             }
         }
@@ -369,7 +387,7 @@ fn cases(tier: Tier) -> Vec<Case> {
         for cl in [None, Some(0usize), Some(5)] {
             for position in 0..4u8 {
                 for owned in [None, Some(4usize), Some(6)] {
-                    v.push(Case { topic_len: Some(t), corr_len: cl, position, in_qos: (t % 2) as u8, add_user_props: (t % 3) as u8, owned, topic_kind: 1, same_topic: false });
+                    v.push(Case { topic_len: Some(t), corr_len: cl, position, in_qos: (t % 2) as u8, add_user_props: (t % 3) as u8, owned, topic_kind: 1, same_topic: false, in_flags: 0 });
                 }
             }
         }
@@ -387,7 +405,7 @@ fn cases(tier: Tier) -> Vec<Case> {
             for cl in &cls {
                 for add_user_props in [0u8, 1] {
                     for position in [0u8, 2] {
-                        v.push(Case { topic_len: *t, corr_len: *cl, position, in_qos: 1, add_user_props, owned: Some(k), topic_kind: 0, same_topic: false });
+                        v.push(Case { topic_len: *t, corr_len: *cl, position, in_qos: 1, add_user_props, owned: Some(k), topic_kind: 0, same_topic: false, in_flags: 0 });
                     }
                 }
             }
